@@ -1389,6 +1389,9 @@ def bchr(n: int) -> bytes:
 DUMPFORMAT_VERSION = bchr(2)
 
 FOUR_BYTE_INT_MAX = 2147483647
+# tuples / frozensets nested deeper than this are refused as set members and
+# dict keys: hashing and comparing them recurses in C without a safe bound
+MAX_HASHABLE_NESTING = 256
 
 FLOAT_FORMAT = "!d"
 FLOAT_FORMAT_SIZE = struct.calcsize(FLOAT_FORMAT)
@@ -1457,6 +1460,7 @@ class Unserializer:
             if ver != DUMPFORMAT_VERSION:
                 raise LoadError("wrong dumpformat version %r" % ver)
         self.stack: list[object] = []
+        self._hashable_depths: dict[int, int] = {}
         try:
             while True:
                 opcode = self.stream.read(1)
@@ -1591,9 +1595,11 @@ class Unserializer:
             raise LoadError("not enough items for setitem")
         value = self.stack.pop()
         key = self.stack.pop()
+        if type(self.stack[-1]) is dict:
+            self._check_hashable_nesting((key,))
         try:
             self.stack[-1][key] = value  # type: ignore[index]
-        except (TypeError, IndexError):
+        except (TypeError, IndexError, RecursionError):
             raise LoadError("invalid setitem target or key") from None
 
     num2func[opcode.SETITEM] = load_setitem
@@ -1608,14 +1614,28 @@ class Unserializer:
         if length < 0 or length > len(self.stack):
             raise LoadError("invalid item count %d" % length)
         if length:
+            items = self.stack[-length:]
+            if type_ is not tuple:
+                self._check_hashable_nesting(items)
             try:
-                res = type_(self.stack[-length:])
-            except TypeError:
+                res = type_(items)
+            except (TypeError, RecursionError):
                 raise LoadError("unhashable item in set") from None
+            if type_ is not set:
+                # remember how deeply tuples / frozensets are nested:
+                # hashing and comparing them recurses in C
+                depths = self._hashable_depths
+                depths[id(res)] = 1 + max(depths.get(id(x), 0) for x in items)
             del self.stack[-length:]
             self.stack.append(res)
         else:
             self.stack.append(type_())
+
+    def _check_hashable_nesting(self, items) -> None:
+        depths = self._hashable_depths
+        for item in items:
+            if depths.get(id(item), 0) > MAX_HASHABLE_NESTING:
+                raise LoadError("set member / dict key is nested too deeply")
 
     def load_buildtuple(self) -> None:
         self._load_collection(tuple)
